@@ -57,18 +57,26 @@ func c13Races(tier string) []*Scenario {
 	}
 	// (2) a raw client makes the receive loop finish the stream (nil frame = protocol error,
 	// window overrun) while the handler is emitting
-	for _, cause := range []string{"nil-frame", "overrun", "cancel"} {
-		cause := cause
+	for _, cause := range []string{"nil-frame", "overrun", "cancel", "nil-frame/rev", "overrun/rev", "cancel/rev", "cancel-mid-message", "nil-frame-mid-message", "cancel-mid-message/rev", "nil-frame-mid-message/rev"} {
+		// "/rev": the second family of default schedules (greatest thread name first)
+		rev := strings.HasSuffix(cause, "/rev")
+		name := cause
+		cause := strings.TrimSuffix(cause, "/rev")
 		scs = append(scs, &Scenario{
-			Name: "c13/race/raw/" + cause, Prop: "C13", Heavy: true,
+			Name: "c13/race/raw/" + name, Prop: "C13", Heavy: true,
 			Desc: "a scripted client opens a Bidi stream whose handler sends headers, two messages and returns, and concurrently makes the server's receive loop finish that stream (" + cause + "); every synchronisation operation of the server's emission path is a scheduling point",
-			Opt:  Options{Level: "focus", Focus: focus, Bound: bound - 1},
+			Opt:  Options{Level: "focus", Focus: focus, Bound: bound, RevOrder: rev},
 			Run: func(w *World) {
 				h := grpctunnel.NewTunnelServiceHandler(grpctunnel.TunnelServiceHandlerOptions{})
 				h.RegisterService(&TestSvcDesc, &TestServer{W: w, Name: "fwd"})
 				n := NewNet(w, "T")
 				tunnelpb.RegisterTunnelServiceServer(n, h.Service())
 				w.Scripts["s1"] = &HandlerScript{ID: "s1", Tag: 1, KeepGoing: true, Ops: []HOp{{K: "sendhdr", MD: hmd}, {K: "send", Size: 3}, {K: "send", Size: 16385}, {K: "return"}}}
+				mid := strings.HasSuffix(cause, "-mid-message")
+				if mid {
+					// one message of four chunks; the peer reacts to its first chunk
+					w.Scripts["s1"].Ops = []HOp{{K: "sendhdr", MD: hmd}, {K: "send", Size: 3*16384 + 1}, {K: "return"}}
+				}
 				rc, err := w.OpenRawClient(n, true)
 				if err != nil {
 					return
@@ -80,7 +88,17 @@ func c13Races(tier string) []*Scenario {
 				// this peer is not "slow": it speaks as fast as it can, so its frames race the handler
 				peer := w.Go("rawclient", true, func() {
 					_ = rc.Send(fNew(1, "/verif.T/Bidi", 1, 65536, "s1"))
-					switch cause {
+					if mid {
+						w.WaitUntil("raw:first-chunk", func() bool {
+							for _, m := range rc.Recvd {
+								if rm := m.GetResponseMessage(); rm != nil && int(rm.Size) > len(rm.Data) {
+									return true
+								}
+							}
+							return w.Vals["hangup"] != nil || rc.Done
+						})
+					}
+					switch strings.TrimSuffix(cause, "-mid-message") {
 					case "nil-frame":
 						_ = rc.Send(fNilC(1))
 					case "cancel":
@@ -399,6 +417,7 @@ func c14Dedicated(tier string) []*Scenario {
 						w.Log(Event{Actor: "fault", Op: how})
 						if how == "stop" {
 							rs.Stop()
+							w.Log(Event{Actor: "fault", Op: "stop-returned"})
 						} else {
 							cancel()
 						}
